@@ -25,7 +25,7 @@ var bytesFuncs = []bfnSpec{
 	{"Message", "Length"}, {"Message", "Data"}, {"Message", "Checksum"}, {"Message", "IsError"}, {"Message", "ErrorCode"},
 	{"Message", "Validate"}, {"MTData2", "PacketAt"}, {"", "ScanMessages"}, {"", "NewMessage"},
 	{"MTData2Packet", "SetLength"}, {"MTData2Packet", "SetIdentifier"}, {"", "NewMTData2Package"},
-	{"MTData2Packet", "Identifier"},
+	{"MTData2Packet", "Identifier"}, {"MTData2Packet", "Data"},
 }
 
 func bfnName(recv, name string) string {
@@ -59,9 +59,11 @@ type benv struct {
 	pkgFuncs  string            // name of the imported package whose translated functions may be called as pkg.F(...)
 	ctxDone   string            // text of the channel a `select` may poll, e.g. "ctx.Done()"
 	// slices that share arrays (viewfn.go)
-	useViews bool
-	views    map[string]view
-	kindOf   map[string]string // kinds of the variables declared in the function (and in inlined helpers)
+	recvNonNil bool // the receiver is a non-nil pointer (comparisons with nil are decided)
+	timeFns    bool // time.Date and the accessors of time.Time values are parameters
+	useViews   bool
+	views      map[string]view
+	kindOf     map[string]string // kinds of the variables declared in the function (and in inlined helpers)
 }
 
 func (e *benv) bad(n ast.Node, why string) string {
@@ -105,6 +107,9 @@ func bkind(t types.Type) string {
 		}
 		if u.Kind() == types.UntypedNil {
 			return "nil"
+		}
+		if u.Kind() == types.String || u.Kind() == types.UntypedString {
+			return "string"
 		}
 	case *types.Slice:
 		if b, ok := u.Elem().Underlying().(*types.Basic); ok && b.Kind() == types.Uint8 {
@@ -158,6 +163,8 @@ func coqKind(k string) string {
 		return "option Z"
 	case "float":
 		return "f64"
+	case "string":
+		return "gstring"
 	case "dataid":
 		return "(Z * Z * Z)"
 	case "osetting":
@@ -328,6 +335,17 @@ func (e *benv) expr(n ast.Expr) bex {
 			}
 			return bex{"(do " + t + " <- " + a.monadic() + "; if " + t + " then Val true else " + b.monadic() + ")", false}
 		}
+		if (v.Op == token.EQL || v.Op == token.NEQ) && e.recvName != "" && e.recvNonNil {
+			// o == nil for the receiver of a method that is being executed through a non-nil pointer
+			if id, ok := v.X.(*ast.Ident); ok && id.Name == e.recvName {
+				if y, ok := v.Y.(*ast.Ident); ok && y.Name == "nil" {
+					if v.Op == token.EQL {
+						return bex{"false", true}
+					}
+					return bex{"true", true}
+				}
+			}
+		}
 		a, b := e.expr(v.X), e.expr(v.Y)
 		lk := bkind(e.x.info.Types[v.X].Type)
 		switch v.Op {
@@ -477,6 +495,13 @@ func (e *benv) expr(n ast.Expr) bex {
 				if bkind(e.x.info.Types[v.Args[0]].Type) == "bytes" {
 					return a
 				}
+			case "string":
+				switch bkind(e.x.info.Types[v.Args[0]].Type) {
+				case "bytes": // string(data): the text with these bytes
+					return e.combine([]bex{a}, func(s []string) string { return "(GText " + s[0] + ")" })
+				case "string": // between named string types
+					return a
+				}
 			}
 			return bex{e.bad(n, "unsupported conversion"), false}
 		}
@@ -512,6 +537,35 @@ func (e *benv) expr(n ast.Expr) bex {
 		if id, ok := v.Fun.(*ast.Ident); ok && id.Name == "len" && len(v.Args) == 1 {
 			a := e.expr(v.Args[0])
 			return e.combine([]bex{a}, func(s []string) string { return "(g_len " + s[0] + ")" })
+		}
+		if e.timeFns {
+			if sel, ok := v.Fun.(*ast.SelectorExpr); ok {
+				full := ""
+				if f, ok := e.x.info.Uses[sel.Sel].(*types.Func); ok {
+					full = f.FullName()
+				}
+				if full == "time.Date" && len(v.Args) == 8 && exprText(v.Args[7]) == "time.UTC" {
+					var ops []bex
+					for _, a := range v.Args[:7] {
+						ops = append(ops, e.expr(a))
+					}
+					return e.combine(ops, func(s []string) string { return "(time_date " + strings.Join(s, " ") + ")" })
+				}
+				// accessors of a time.Time value: of the UTC-converted instant (t := ts.UTC()) or of the argument as given
+				if strings.HasPrefix(full, "(time.Time).") && len(v.Args) == 0 {
+					if id, ok := sel.X.(*ast.Ident); ok {
+						switch e.vars[id.Name] {
+						case "TIME_UTC":
+							return bex{"t_" + strings.ToLower(sel.Sel.Name), true}
+						case "TIME_ARG":
+							if sel.Sel.Name == "UTC" {
+								return bex{"TIME_UTC", true}
+							}
+							return bex{"ts_" + strings.ToLower(sel.Sel.Name), true}
+						}
+					}
+				}
+			}
 		}
 		if e.extern != nil {
 			if t, ok := e.extern[exprText(v)]; ok {
@@ -608,6 +662,21 @@ func (e *benv) expr(n ast.Expr) bex {
 			case "(encoding/binary.bigEndian).Uint64":
 				a := e.expr(v.Args[0])
 				return e.flatten(e.combine([]bex{a}, func(s []string) string { return "(g_be64 " + s[0] + ")" }))
+			case "strings.TrimSpace":
+				a := e.expr(v.Args[0])
+				return e.combine([]bex{a}, func(s []string) string { return "(g_trimspace " + s[0] + ")" })
+			case "fmt.Sprintf":
+				// a formatted text is kept as its format and its (integer) arguments
+				if lit, ok := v.Args[0].(*ast.BasicLit); ok {
+					var ops []bex
+					for _, arg := range v.Args[1:] {
+						if bkind(e.x.info.Types[arg].Type) != "int" {
+							return bex{e.bad(n, "unsupported Sprintf argument"), false}
+						}
+						ops = append(ops, e.expr(arg))
+					}
+					return e.combine(ops, func(s []string) string { return "(GFmt " + lit.Value + "%string [" + strings.Join(s, "; ") + "])" })
+				}
 			case "bytes.Index":
 				a, b := e.expr(v.Args[0]), e.expr(v.Args[1])
 				return e.combine([]bex{a, b}, func(s []string) string { return "(g_bytes_index " + s[0] + " " + s[1] + ")" })
@@ -615,7 +684,7 @@ func (e *benv) expr(n ast.Expr) bex {
 				// the arguments are evaluated (they may panic); the error is identified by its site in the function
 				var ops []bex
 				for _, arg := range v.Args {
-					if bkind(e.x.info.Types[arg].Type) == "" {
+					if k := bkind(e.x.info.Types[arg].Type); k == "" || k == "string" {
 						continue // string literals etc.
 					}
 					ops = append(ops, e.expr(arg))
@@ -625,8 +694,23 @@ func (e *benv) expr(n ast.Expr) bex {
 				// %w of an error value: the cause is what callers can observe; keep it
 				for i, arg := range v.Args {
 					if bkind(e.x.info.Types[arg].Type) == "error" && i > 0 {
-						c := e.expr(arg)
-						return c
+						// the other arguments are still evaluated (they may panic), in order
+						var all []bex
+						for _, a2 := range v.Args {
+							if k := bkind(e.x.info.Types[a2].Type); k == "" || k == "string" {
+								continue
+							}
+							all = append(all, e.expr(a2))
+						}
+						pos := 0
+						for j, a2 := range v.Args[:i] {
+							_ = j
+							if k := bkind(e.x.info.Types[a2].Type); k == "" || k == "string" {
+								continue
+							}
+							pos++
+						}
+						return e.combine(all, func(a []string) string { return a[pos] })
 					}
 				}
 				return e.combine(ops, func([]string) string { return fmt.Sprintf("(Some %d)", site) })
@@ -737,7 +821,7 @@ func (e *benv) block(stmts []ast.Stmt, ret func([]ast.Expr) string, cont func() 
 	}
 	rest := func() string { return e.block(stmts[1:], ret, cont) }
 	bindv := func(name string, val bex) string {
-		g := "v_" + strings.ReplaceAll(name, ".", "_")
+		g := "v_" + strings.NewReplacer(".", "_", "*", "val", "!", "").Replace(name)
 		saved, had := e.vars[name]
 		e.vars[name] = g
 		var out string
@@ -787,6 +871,9 @@ func (e *benv) block(stmts []ast.Stmt, ret func([]ast.Expr) string, cont func() 
 		return "(do " + t + " <- " + c.t + "; if " + t + " then " + thenT + " else " + elseT + ")"
 	case *ast.DeclStmt:
 		gd, ok := s.Decl.(*ast.GenDecl)
+		if ok && gd.Tok == token.CONST {
+			return rest() // local constants: their uses carry their values
+		}
 		if !ok || gd.Tok != token.VAR || len(gd.Specs) != 1 {
 			return e.bad(s, "unsupported declaration")
 		}
@@ -834,7 +921,12 @@ func (e *benv) block(stmts []ast.Stmt, ret func([]ast.Expr) string, cont func() 
 		return "(if ctx_done then " + e.block(onDone, ret, rest) + " else " + e.block(onDefault, ret, rest) + ")"
 	case *ast.SwitchStmt:
 		// switch tag { case c1, c2: A; ...; default: D }: constant cases, no fallthrough
-		if s.Init != nil || s.Tag == nil {
+		if s.Init != nil && s.Tag != nil {
+			// switch x := e; tag { .. }  ==  { x := e; switch tag { .. } }
+			inner := &ast.SwitchStmt{Switch: s.Switch, Tag: s.Tag, Body: s.Body}
+			return e.block(append([]ast.Stmt{s.Init, inner}, stmts[1:]...), ret, cont)
+		}
+		if s.Tag == nil {
 			return e.bad(s, "unsupported switch")
 		}
 		tag := e.expr(s.Tag)
@@ -1119,6 +1211,13 @@ func (e *benv) block(stmts []ast.Stmt, ret func([]ast.Expr) string, cont func() 
 			}
 			i, v := e.expr(ix.Index), e.expr(s.Rhs[0])
 			return bindv(xid.Name, e.flatten(e.combine([]bex{i, v}, func(a []string) string { return "(g_set " + cur + " " + a[0] + " " + a[1] + ")" })))
+		}
+		if st, ok := s.Lhs[0].(*ast.StarExpr); ok && s.Tok == token.ASSIGN && e.recvName != "" {
+			if rid, ok := st.X.(*ast.Ident); ok && rid.Name == e.recvName {
+				if _, okv := e.vars[e.recvName+".*"]; okv {
+					return bindv(e.recvName+".*", e.expr(s.Rhs[0]))
+				}
+			}
 		}
 		if st, ok := s.Lhs[0].(*ast.StarExpr); ok && s.Tok == token.ASSIGN && bkind(e.x.info.TypeOf(st.X)) == "oconf" {
 			if rid, ok := st.X.(*ast.Ident); ok {
@@ -1721,5 +1820,38 @@ func (x *xl) clientFns(w *bytes.Buffer) {
 		}
 		stateFns[name] = pass
 		fmt.Fprintf(w, "Definition %s %s (st : gstate) : R (%s * gstate) :=\n  let '(s_message, s_mtData2, s_mtData2Packet, s_nextPacketIndex) := st in\n  %s.\n\n", coqName, params, strings.Join(rt, " * "), body)
+	}
+	// send: the only place the client writes to the port; its state is the port's output (nothing else may change)
+	{
+		item := "client method send"
+		fd := x.findFunc("Client", "send")
+		if fd == nil || fd.Recv == nil || len(fd.Recv.List[0].Names) != 1 || len(fd.Type.Params.List) != 2 || len(fd.Type.Params.List[1].Names) != 1 {
+			x.fail(item, "not found")
+			w.WriteString("Definition g_Client_send_missing : unit := tt.\n\n")
+			return
+		}
+		recv := fd.Recv.List[0].Names[0].Name
+		e := &benv{x: x, item: item, ok: true, vars: map[string]string{}, known: known, mutators: map[string]bool{},
+			recvName: recv, fields: []string{"port!"}, fkinds: map[string]string{"port!": "frames"}}
+		e.vars[recv+".port!"] = "s_port"
+		e.portWrite = recv + ".p.Write"
+		msg := fd.Type.Params.List[1].Names[0].Name
+		e.vars[msg] = "v_" + msg
+		ret := func(results []ast.Expr) string {
+			if len(results) != 1 {
+				return e.bad(fd, "unexpected results")
+			}
+			b := e.expr(results[0])
+			if b.t == "NIL" {
+				b = bex{"None", true}
+			}
+			port := e.vars[recv+".port!"]
+			return e.combine([]bex{b}, func(a []string) string { return "(" + a[0] + ", " + port + ")" }).monadic()
+		}
+		body := e.block(fd.Body.List, ret, nil)
+		if !e.ok {
+			body = "Pan"
+		}
+		fmt.Fprintf(w, "Definition g_Client_send (pw_err : option Z) (v_%s : bytes) (s_port : list bytes) : R (option Z * list bytes) :=\n  %s.\n\n", msg, body)
 	}
 }
